@@ -253,7 +253,8 @@ def stackNewShape (tshape : Shape) (axis : Int) (others : List Shape) : Res Shap
     operand needs an iterator, `denseViewStack` otherwise. `dst` are the (zeroed) cells of the result. -/
 def stackCells (st : St) (t : Dense) (axis : Int) (others : List Dense) (newStrides : List Int) (retLen : Nat)
     (dst : List Val) : Res (List Val) := do
-  let allNoMat := !t.requiresIterator && others.all (fun o => !o.requiresIterator)
+  -- column-major operands are read through their iterators (the result is assembled in row-major order)
+  let allNoMat := !t.requiresIterator && !t.ap.o.col && others.all (fun o => !o.requiresIterator && !o.ap.o.col)
   if allNoMat then
     -- copyDense / copyDenseSliced panic on mixed element types
     if others.any (fun o => o.dt != t.dt) then throwPanic "Cannot copy DenseTensors of different types"
@@ -278,10 +279,10 @@ def stackCells (st : St) (t : Dense) (axis : Int) (others : List Dense) (newStri
 /-- `StdEng.StackDense(t, axis, others...)` -/
 def stackDense (st : St) (t : Dense) (axis : Int) (others : List Dense) : Res (St × Dense) := do
   let newShape ← stackNewShape t.shape axis (others.map (·.shape))
-  let newStrides := Dense.defaultStrides t.ap.o.col newShape
+  let newStrides := Dense.defaultStrides false newShape
   let (st, r0) ← recycled st t.dt newShape
-  -- retVal.setAP(&ap): the order flags are the first operand's
-  let ret : Dense := { r0 with ap := { shape := newShape, strides := newStrides, fin := true, o := t.ap.o } }
+  -- retVal.setAP(&ap): the order flags are the first operand's, but the result is always row-major
+  let ret : Dense := { r0 with ap := { shape := newShape, strides := newStrides, fin := true, o := { t.ap.o with col := false } } }
   if (t :: others).any (fun o => o.mask.isSome) then throwPanic "unmodelled: masked operand of Stack"
   let dst ← readCap st ret.win
   let dst ← stackCells st t axis others newStrides ret.win.len dst
